@@ -570,6 +570,15 @@ def r08_8(ck, rule='R08.8'):
         bad = mutations_of(fi.node, p1)
         bad += [n for n in A.walk_no_nested(fi.node)
                 if isinstance(n, ast.AugAssign) and A.is_name(n.target, p1)]
+        # numpy-style in-place results: f(..., out=current)
+        bad += [c for c in A.calls_in(fi.node)
+                if any(k.arg == 'out' and p1 in A.names_in(k.value)
+                       for k in c.keywords)]
+        # item / slice stores into the current value
+        bad += [n for n in A.walk_no_nested(fi.node)
+                if isinstance(n, ast.Assign) and any(
+                    isinstance(t, ast.Subscript) and A.is_name(t.value, p1)
+                    for t in n.targets) and n not in bad]
         ck.require(not bad, rule, fi, bad[0] if bad else fi.node.name,
                    'the current value is not modified in place',
                    '%s modifies the current value in place (%s): an object '
